@@ -496,51 +496,11 @@ def _hardline_in_flat(repo, rep, ms):
 
 # --------------------------------------------------------------------------- C04.i
 def _renderer(repo, rep):
-    m = repo.module('render')
-    n = 0
-    f = m.funcs.get('default_render_to_stream')
-    if f is None:
-        raise AnalysisError('render.default_render_to_stream vanished')
-    n += _renderer_facts(rep, m, f, 'C04.i', allow_extra_writes=False)
-    al = m.funcs.get('as_lines')
-    if al is None:
-        raise AnalysisError('render.as_lines vanished')
-    # as_lines: a new line starts at each SLine and carries it; every other sdoc is appended
-    loops = [s for s in ast.walk(al.node) if isinstance(s, ast.For)]
-    ok_loop = False
-    for lp in loops:
-        if not isinstance(lp.target, ast.Name):
-            continue
-        v = lp.target.id
-        paths = enumerate_paths(lp.body, '__none__', {})
-        good = True
-        for p in paths:
-            is_line = None
-            for t, pol in p.conds:
-                if 'isinstance(%s, SLine)' % v in t:
-                    is_line = pol if not t.startswith('not ') else (not pol)
-            if is_line is None:
-                good = False
-                continue
-            ys = [e for e in p.events if e[0] == 'yield']
-            apps = [e for e in p.events if e[0] == 'call' and e[1].endswith('.append') and e[2] == [v]]
-            sets = [e for e in p.events if e[0] == 'set']
-            if is_line:
-                good &= len(ys) == 1 and any(s[3] == '[%s]' % v for s in sets) and not apps
-            else:
-                good &= not ys and len(apps) == 1
-        ok_loop = good and bool(paths)
-        n += 1
-        rep.check(ok_loop, 'C04.i', 'as_lines:split-at-SLine', '%s:%d' % (m.relpath, lp.lineno),
-                  'lines split exactly at SLine, nothing dropped',
-                  'as_lines no longer appends every non-SLine item to the current line and starts a new '
-                  'line [sline] at each SLine', nontrivial=True)
-    tail = [s for s in al.node.body if isinstance(s, ast.If)]
-    n += 1
-    rep.check(any(any(isinstance(x, ast.Yield) for x in ast.walk(s)) for s in tail), 'C04.i', 'as_lines:final-flush',
-              al.where, 'last line flushed', 'as_lines does not yield the last line')
-    n += utils_rules(repo, rep, 'C04.i')
-    rep.floor('C04.i', n, 8)
+    """C04.i: the plain renderer writes exactly the text fragments and line breaks it is given (annotations invisible, the last text
+    fragment of each line without trailing blanks): decided by interpreting it, with as_lines and rfind_idx, on a few hundred small
+    sdoc sequences"""
+    from . import c16_render
+    rep.floor('C04.i', c16_render.plain_renderer(repo, rep, 'C04.i'), 1)
 
     # ---------------------------------------------------------------- C04.m the document is read-only for the layout
     # (imported from C19.d): a document that remembers something from one visit - an evaluated contextual part, a consumed
